@@ -102,7 +102,7 @@ def _from_residual(ex, c, a):
         return Obj('Result', 'Err', [v.fields[0]])
     if isinstance(v, Obj) and v.ty == 'Option':
         return NONE()
-    raise Unsupported('from_residual')
+    raise Unsupported(f'from_residual of {v!r:.80}')
 
 
 @model('Clone::clone')
@@ -614,11 +614,26 @@ def _into_vec(ex, c, a):
     return VecObj(list(v.items) if c.method == 'into_vec' else [clone_val(x) for x in v.items])
 
 
-@model('box_new', 'box_assume_init_into_vec_unsafe', 'write_box_via_move')
+@model('box_new')
 def _box_new2(ex, c, a):
-    if c.method == 'box_new':
-        return Obj('Box', None, [a[0]])
-    raise Unsupported(c.text)
+    return Obj('Box', None, [a[0]])
+
+
+@model('Box::new_uninit')
+def _box_new_uninit(ex, c, a):
+    # lowering of vec![..]: Box<MaybeUninit<[T; N]>>; MaybeUninit { uninit: (), value: ManuallyDrop<MaybeDangling<T>> }
+    return Obj('Box', None, [Obj('MaybeUninit', None, [UNIT, Obj('ManuallyDrop', None, [Obj('MaybeDangling', None, [None])])])])
+
+
+@model('box_assume_init_into_vec_unsafe')
+def _box_into_vec(ex, c, a):
+    arr = a[0].fields[0].fields[1].fields[0].fields[0]
+    return VecObj(list(arr.items))
+
+
+@model('Drop::drop', 'drop_in_place')
+def _drop_noop(ex, c, a):
+    return UNIT
 
 
 # ---- iterators -------------------------------------------------------------------
@@ -1174,8 +1189,14 @@ def _punct_pairs(ex, c, a):
     return Iter('pairs', deref_force(ex, a[0]))
 
 
-@model('Pair::value', 'Pair::into_value')
+@model('Pair::value')
 def _pair_value(ex, c, a):
+    # Pair<&T, &P>::value(&self) -> &&T
+    return Ptr(deref(a[0]).fields, 0)
+
+
+@model('Pair::into_value')
+def _pair_into_value(ex, c, a):
     return deref(a[0]).fields[0]
 
 
